@@ -17,15 +17,16 @@ LEVEL_TEXT = ("Kernel-checked theorems over the integer-only temporal model (Pro
               "thorough tier); the four temporal leaves satisfy the leaf laws of C01/C13 (`leaf_roundtrip`, `leaf_passthrough`), so "
               "`roundtrip_temporal` / `passthrough_temporal` instantiate the C01 / C13 theorems on the scalar set S1 with temporals (enum classes: the "
               "decidable `enumWF` for the round trip, no condition for pass-through); int text round trip from core's "
-              "Nat.toDigits lemmas. The remaining scalar kinds (Lemmas/ScalarText.lean): the UUID hex text round trip for every 128-bit "
-              "value (`uuid_text_roundtrip`), the Fraction text round trip for every fraction in lowest terms (`fraction_text_roundtrip`); "
-              "pass-through on S2 = every scalar kind but bytes with no side condition (`leaf_passthrough_all`, `passLaws_S2`, "
-              "`passthrough_all` instantiates C13); the leaf round trip on S2r = S1 + Decimal, Fraction, path, pattern for canonically "
-              "spelled values `hasScalarC` (Decimal text positional `decCanon`, Fraction gcd 1, path `pathWire`, literal pattern; "
-              "`leaf_roundtrip_all`, `roundtrip_all` instantiates C01 through the leaf-generic `C01.roundtripG`), refuted without the "
-              "spelling condition at the unnormalised pair 2/4 (`roundtrip_all_false_without_canon`); uuid is outside S2r because the "
-              "modelled strload is undefined on UUID text (`uuid_out`; conditional law `umUuid_text`), bytes because its unmarshaller is "
-              "not executed by the model. Float / Decimal printers and parsers beyond these fragments are CPython's (Python's own "
+              "Nat.toDigits lemmas. The remaining scalar kinds (Lemmas/ScalarText.lean), S2 = every scalar kind but bytes: the UUID hex "
+              "text round trip for every 128-bit value (`uuid_text_roundtrip`), the modelled strload returns canonical UUID text unchanged "
+              "(`strload_uuid`: the JSON lexer fails or leaves a second token, the text is no plain word) so the executable leaves read "
+              "str(u) back (`uuid_unmarshal`); the Fraction text round trip for every fraction in lowest terms (`fraction_text_roundtrip`); "
+              "pass-through on S2 with no side condition (`leaf_passthrough_all`, `passLaws_S2`, `passthrough_all` instantiates C13); "
+              "the leaf round trip on S2 for canonically spelled values `hasScalarC` (Decimal text positional `decCanon`, Fraction gcd 1, "
+              "path `pathWire`, literal pattern; no condition on S1 and uuid; `leaf_roundtrip_all`, `roundtrip_all` instantiates C01 "
+              "through the leaf-generic `C01.roundtripG`), refuted without the spelling condition at the unnormalised pair 2/4 "
+              "(`roundtrip_all_false_without_canon`); bytes is out because its unmarshaller is not executed by the model. Float / "
+              "Decimal printers and parsers beyond these fragments are CPython's (Python's own "
               "printer is the oracle there). Tied to /repo by the per-run correspondence on boundary-biased scalars in "
               "all text carriers; the property (text -> value, numbers -> temporals as UTC epoch seconds, temporals -> numbers / "
               "str / bytes, warm caches) is evaluated directly on the real library, and emitted ISO text is read back by independent "
